@@ -230,6 +230,9 @@ Step ==
             /\ rs' = [rs EXCEPT !.skip = ~same, !.hs = want.saves, !.tabs = want.tabs]
             /\ UNCHANGED grp
             /\ cnt' = Inc(cnt, {"lines", "vectors"} \cup (IF same THEN {} ELSE {"setup_mismatch"}))
+            /\ (~same /\ On("ALL")) => PrintT(<<"INFO", ToJson([line |-> l + 1, panics |-> r.panics,
+                                                 diff |-> IF Shape(post) THEN SetToSeq(DiffFields(want, post, NoDirty)) ELSE <<"shape">>,
+                                                 wx |-> want.x, wy |-> want.y, px |-> post.x, py |-> post.y])>>)
        [] r.k = "utf8" ->
             \* mode switch: a pending incomplete sequence is discarded (or flushed: freedom point)
             \* (selecting UTF-8 while already in UTF-8 mode changes nothing)
